@@ -137,6 +137,9 @@ def search(chk):
     run(chk, searching=True)
 
 
+explain = P.explain
+
+
 def replay(path):
     d = json.load(open(path))
     if d.get("suite") == "programs":
